@@ -183,7 +183,7 @@ VARIANTS += [
          ("*", "Register.__init__"), ("C16",)),
     # reverting fix 23288a1
     fire("c16-gate-table-lookup-unprotected",
-         [(UN16, "            try:\n                gatedef = gatedefs[gate.name]\n            except KeyError:\n                raise JaqalError(f\"No native gate {gate.name} to emulate\") from None\n", "            gatedef = gatedefs[gate.name]\n")],
+         [(UN16, "            try:\n                gatedef = gatedefs[gate.name]\n            except KeyError:\n                if isinstance(gate.gate_def, BusyGateDefinition):\n                    # A bounding gate that expand_subcircuits made up for a\n                    # gate set without one: it has no unitary\n                    continue\n                raise JaqalError(f\"No native gate {gate.name} to emulate\") from None\n", "            gatedef = gatedefs[gate.name]\n")],
          ("C16.21", "gate-table-lookup"), ("C16",)),
     # reverting fix 25182b6
     fire("c16-probe-oserror-escapes",
